@@ -44,8 +44,6 @@ tokTypes = {
     '&': ['eBitOp'],
     '^': ['eBitOp'],
     '~': ['eBitOp'],
-    'true': ['eBoolean'],
-    'false': ['eBoolean'],
     '{': ['eBracket'],
     '}': ['eBracket'],
     '<': ['eBracket', 'eComparisonOp'],
@@ -65,33 +63,6 @@ tokTypes = {
     ']': ['eExtendedOp', 'eLambda'],
     '++': ['eIncDecOp'],
     '--': ['eIncDecOp'],
-    'asm': ['eKeyword'],
-    'auto': ['eKeyword', 'eType'],
-    'break': ['eKeyword'],
-    'case': ['eKeyword'],
-    'const': ['eKeyword'],
-    'continue': ['eKeyword'],
-    'default': ['eKeyword'],
-    'do': ['eKeyword'],
-    'else': ['eKeyword'],
-    'enum': ['eKeyword'],
-    'extern': ['eKeyword'],
-    'for': ['eKeyword'],
-    'goto': ['eKeyword'],
-    'if': ['eKeyword'],
-    'inline': ['eKeyword'],
-    'register': ['eKeyword'],
-    'restrict': ['eKeyword'],
-    'return': ['eKeyword'],
-    'sizeof': ['eKeyword'],
-    'static': ['eKeyword'],
-    'struct': ['eKeyword'],
-    'switch': ['eKeyword'],
-    'typedef': ['eKeyword'],
-    'union': ['eKeyword'],
-    'volatile': ['eKeyword'],
-    'while': ['eKeyword'],
-    'void': ['eKeyword', 'eType'],
     '&&': ['eLogicalOp'],
     '!': ['eLogicalOp']
 }
